@@ -69,6 +69,16 @@ pub fn check_inv(ctx: &Ctx, st: &mut Stats, inv: &Inv, tag: &str) -> Option<Stri
             }
         }
     }
+    if let (Some(table), Some(o)) = (&parsed.table, &inv.ordering) {
+        // under an ordering file the variables it lists come in the file's order (first appearance)
+        if let Some(listed) = super::clitab::ordering_names(o) {
+            st.bump("headers_compared_with_an_ordering_file");
+            if !super::clitab::respects_order(&table.header, &listed) {
+                st.violate("c10.table", "C10:table:header-order".into(), format!("{}: header {:?} does not follow the order of the ordering file, which lists {:?}", inv.describe(), table.header, listed), case());
+                return None;
+            }
+        }
+    }
     if let Some(table) = &parsed.table {
         st.bump(&format!("tables_filter_{}", filter));
         if let Err((sig, msg)) = judge_table(table, &rf, filter, inv.m) {
@@ -157,7 +167,7 @@ fn gen_ordering(rng: &mut Rng, names: &[String]) -> String {
             ns.insert(rng.usize(ns.len() + 1), "extra".into());
         }
     }
-    let sep = rng.pick_str(&["\n", " ", ", ", " ; ", "\r\n", " and ", " \"comment\" ", " 12 ", " # ", " => "]);
+    let sep = rng.pick_str(&["\n", " ", ", ", " ; ", "\r\n", " and ", " \"comment\" ", " 12 ", " # ", " => ", ",", ";", "\"c\"", "|", ")(", ", ", ","]);
     let mut s = ns.join(sep);
     if rng.chance(1, 3) {
         s.push('\n');
